@@ -487,7 +487,8 @@ func calculateChanges(oldVals, newVals map[string]string) (add, remove []KV) {
 	}
 
 	for k, v := range oldVals {
-		if val, ok := newVals[k]; !ok || v != val {
+		// keys with changed values are handled as updates by the adds above
+		if _, ok := newVals[k]; !ok {
 			remove = append(remove, KV{
 				Key: k,
 				Val: v,
